@@ -3,7 +3,7 @@
    Tables, dispatch bounds and low-end constants come from gen/Tables.v = the current source text of /repo. *)
 From Coq Require Import ZArith.
 Require Import C12.gen.Tables.
-From C12 Require Import PrimeB Model ProofsSweep ProofsTable ProofsTab12 ProofsPrimes16 ProofsPPTable ProofsNext ProofsFactor ProofsDivisors ProofsDivisorsNoDup ProofsPower ProofsComplete ProofsSetForms ModelScript ProofsScript ProofsDecide ModelErat ProofsErat ProofsTerminate ProofsEratFull ProofsPowmod ModelFermat ProofsFermat ProofsFermatLittle ProofsMiller.
+From C12 Require Import PrimeB Model ProofsSweep ProofsTable ProofsTab12 ProofsPrimes16 ProofsPPTable ProofsNext ProofsFactor ProofsDivisors ProofsDivisorsNoDup ProofsPower ProofsComplete ProofsSetForms ModelScript ProofsScript ProofsDecide ModelErat ProofsErat ProofsTerminate ProofsEratFull ProofsPowmod ModelFermat ProofsFermat ProofsFermatLittle ProofsMiller ModelDom ProofsDom.
 Local Open Scope Z_scope.
 
 Theorem C12_isprime_exact_below_65536 : Isprime_table_stmt.          Proof. exact isprime_table. Qed.
@@ -84,3 +84,5 @@ Theorem C12_powmod_is_power_mod : Powmod_stmt.                               Pro
 Print Assumptions C12_powmod_is_power_mod.
 Theorem C12_pepin_agrees_with_primality_partial : Pepin_partial_stmt.        Proof. exact pepin_partial. Qed.
 Print Assumptions C12_pepin_agrees_with_primality_partial.
+Theorem C12_factor_same_on_every_copy_of_the_domain : Dom_copy_stmt.         Proof. exact dom_copy_same. Qed.
+Print Assumptions C12_factor_same_on_every_copy_of_the_domain.
